@@ -9,9 +9,10 @@ package main
 //	//@ keyed NAME PROPS...: func=F ; in=pkg ; param=P ; key=K
 
 import (
-	"go/constant"
 	"fmt"
+	"go/constant"
 	"go/types"
+	"os"
 	"sort"
 	"strings"
 
@@ -319,6 +320,31 @@ func runGuardedRules(p *Program, id string) ([]*Gen, []string) {
 							}
 						}
 					}
+					if pc := kv["preceded-by-call"]; pc != "" && holds {
+						// `preceded-by-call=F`: a call of F comes before the site, in its block or in a block that dominates it
+						found := false
+						for _, x := range in.Block().Instrs {
+							if x == in {
+								break
+							}
+							if _, ok := siteMatches(p, "call "+pc, x); ok {
+								found = true
+							}
+						}
+						for _, d := range in.Parent().Blocks {
+							if found || d == in.Block() || !d.Dominates(in.Block()) {
+								continue
+							}
+							for _, x := range d.Instrs {
+								if _, ok := siteMatches(p, "call "+pc, x); ok {
+									found = true
+								}
+							}
+						}
+						if !found {
+							holds, missing = false, "a preceding call of "+pc
+						}
+					}
 					if fb := kv["forbid"]; fb != "" && holds {
 						// `forbid=FACT`: the site must not be decided by that condition
 						for _, fct := range domFacts(in) {
@@ -346,6 +372,25 @@ func runGuardedRules(p *Program, id string) ([]*Gen, []string) {
 									pol = "false"
 								}
 								holds, missing = false, "only the allowed conditions: it also depends on "+pol+":"+valuePath(fct.cond)
+							}
+						}
+					}
+					if ao := kv["allow-only"]; ao != "" && holds && kv["control"] != "" {
+						// control=1: also the conditions the site is control-dependent on without being dominated by them (one arm
+						// of a short-circuit `a && b` that skips the site) must be among the allowed ones
+						for _, cv := range controlConds(in) {
+							if os.Getenv("GOVC_DEBUG") != "" {
+								fmt.Println("controlCond:", valuePath(cv))
+							}
+							okF := false
+							for _, gd := range splitList(ao, "&&") {
+								gd = strings.TrimPrefix(strings.TrimPrefix(gd, "true:"), "false:")
+								if pathMatches(valuePath(cv), gd) {
+									okF = true
+								}
+							}
+							if !okF {
+								holds, missing = false, "only the allowed conditions: whether it is reached also depends on "+valuePath(cv)
 							}
 						}
 					}
@@ -625,7 +670,14 @@ func controlConds(in ssa.Instruction) []ssa.Value {
 		if !ok {
 			continue
 		}
-		if reach(b.Succs[0]) != reach(b.Succs[1]) {
+		// an arm that IS the back edge (an empty `continue` block is threaded away by the SSA builder) goes to the next item
+		arm := func(s *ssa.BasicBlock) bool {
+			if s != target && s.Dominates(target) && s.Dominates(b) {
+				return false
+			}
+			return reach(s)
+		}
+		if arm(b.Succs[0]) != arm(b.Succs[1]) {
 			out = append(out, iff.Cond)
 		}
 	}
